@@ -87,12 +87,15 @@ func cmdCrashChild(args []string) {
 	seed := fs.Uint64("seed", 1, "seed")
 	nw := fs.Int("words", 5, "number of words")
 	size := fs.String("size", "line", "size class")
+	direct := fs.Bool("direct", false, "negative control: write the fail file in place, line by line, instead of calling saveFailFile")
 	_ = fs.Parse(args)
 	out, ws, err := crashPayload(*size, *seed, *nw)
 	if err == nil && *file == "" {
 		err = fmt.Errorf("-file is required")
 	}
-	if err == nil {
+	if err == nil && *direct {
+		err = crashSaveInPlace(*file, *ver, out, *seed, ws)
+	} else if err == nil {
 		err = rapid.VerifSaveFailFile(*file, *ver, out, *seed, ws)
 	}
 	if err != nil {
@@ -100,6 +103,37 @@ func cmdCrashChild(args []string) {
 		os.Exit(3)
 	}
 	os.Exit(0)
+}
+
+// crashSaveInPlace is what saveFailFile must not be: the same bytes, written to the final name directly.
+// Only used as a negative control of the oracle (persist-crash -direct has to report violations).
+func crashSaveInPlace(filename string, version string, output []byte, seed uint64, buf []uint64) error {
+	if err := os.MkdirAll(filepath.Dir(filename), 0775); err != nil {
+		return err
+	}
+	f, err := os.OpenFile(filename, os.O_RDWR|os.O_CREATE|os.O_EXCL, 0600)
+	if err != nil {
+		return err
+	}
+	defer f.Close()
+	for _, s := range strings.Split(string(output), "\n") {
+		if _, err := f.WriteString("# " + s + "\n"); err != nil {
+			return err
+		}
+	}
+	bs := []string{fmt.Sprintf("%v#%v", version, seed)}
+	for _, u := range buf {
+		bs = append(bs, fmt.Sprintf("0x%x", u))
+	}
+	for i, b := range bs {
+		if i > 0 {
+			b = "\n" + b
+		}
+		if _, err := f.WriteString(b); err != nil {
+			return err
+		}
+	}
+	return nil
 }
 
 // ------------------------------------------------------------------------------------------------
@@ -533,6 +567,7 @@ type crashRef struct {
 	seed     uint64
 	nwords   int
 	version  string
+	direct   bool
 	out      []byte
 	words    []uint64
 	calls    []*crashCall
@@ -554,8 +589,12 @@ func crashQuote(args []string) string {
 }
 
 func (ref *crashRef) childArgs(exe, root string) []string {
-	return []string{exe, "persist-crash-child", "-file", filepath.Join(root, ref.relFile), "-version", ref.version,
+	a := []string{exe, "persist-crash-child", "-file", filepath.Join(root, ref.relFile), "-version", ref.version,
 		"-seed", strconv.FormatUint(ref.seed, 10), "-words", strconv.Itoa(ref.nwords), "-size", ref.size}
+	if ref.direct {
+		a = append(a, "-direct")
+	}
+	return a
 }
 
 // crashRun runs strace; returns (killed by SIGKILL, exit code, stderr).
@@ -769,6 +808,7 @@ func cmdCrash(args []string) {
 	maxk := fs.Int("maxk", 0, "cap on kill points per size (0 = all)")
 	jobs := fs.Int("j", 8, "parallel children")
 	nwords := fs.Int("words", 5, "number of words in the fail file")
+	direct := fs.Bool("direct", false, "negative control: the child writes the final file in place; trace failures and violations have to be reported")
 	_ = fs.Parse(args)
 
 	stracePath, err := exec.LookPath("strace")
@@ -806,7 +846,7 @@ func cmdCrash(args []string) {
 		if err != nil {
 			fail("%v", err)
 		}
-		ref := &crashRef{size: size, testName: crashTestNames[i%len(crashTestNames)], seed: *seed, nwords: *nwords, version: rapid.VerifRapidVersion(), out: out, words: words}
+		ref := &crashRef{size: size, testName: crashTestNames[i%len(crashTestNames)], seed: *seed, nwords: *nwords, version: rapid.VerifRapidVersion(), direct: *direct, out: out, words: words}
 		ref.relDir, ref.relFile = rapid.VerifFailFileName(ref.testName)
 		st := &crashSizeStats{TestName: ref.testName}
 		rep.Sizes[size] = st
@@ -1068,7 +1108,8 @@ func crashKill(scratch, stracePath, exe string, ref *crashRef, k int, idx int) (
 		trace := root + ".trace"
 		cmdline := append([]string{stracePath, "-f", "-qq", "-xx", "-s", "0", "-e", "signal=none", "-o", trace, "-e", "trace=" + crashTraceSet,
 			fmt.Sprintf("--inject=%s:signal=SIGKILL:when=%d", call.Sys, call.OrdTid)}, ref.childArgs(exe, root)...)
-		res.replay = crashQuote(cmdline)
+		// the replay writes no trace; the child creates the directories it needs
+		res.replay = crashQuote(append(append(append([]string(nil), cmdline[:9]...), "/dev/null"), cmdline[10:]...))
 		killed, code, stderr := crashRun(root, cmdline)
 		if !killed && code != 0 && code != 3 {
 			_ = os.RemoveAll(root)
